@@ -11,6 +11,6 @@ Empty == [n \in Node |-> {}]
 Disj == {p \in (SUBSET Node) \X (SUBSET Node) : p[1] \cap p[2] = {}}
 NoSelfGraphs == {x \in [Node -> SUBSET Node] : \A n \in Node : n \notin x[n]}
 FewFaults == {f \in [Node -> FailMode] : Cardinality({n \in Node : f[n] # "none"}) \in {1, 2}}
-Fam == {[single |-> g, selfOpt |-> AllFalse, slice |-> Empty, sliceOpt |-> AllFalse, lazy |-> lz, wrap |-> NoWrap, fail |-> fl, procs |-> <<>>, mode |-> [n \in Node |-> "normal"], rorder |-> <<>>] :
+Fam == {[single |-> g, selfOpt |-> AllFalse, slice |-> Empty, sliceOpt |-> AllFalse, lazy |-> lz, wrap |-> NoWrap, fail |-> fl, procs |-> <<>>, mode |-> [n \in Node |-> "normal"], rorder |-> <<>>, ilook |-> NoLook] :
           g \in NoSelfGraphs, lz \in SUBSET Node, fl \in FewFaults}
 =============================================================================
